@@ -97,7 +97,7 @@ def amen_divide(a, b, nswp = 22, x0 = None, eps = 1e-10,rmax = 100, max_full = 5
         rx = x.R.copy()
         
     # check if rmax is a list
-    if isinstance(rmax, int):
+    if isinstance(rmax, (int, np.integer)):
         rmax = [1] + (d-1) * [rmax] + [1]
 
     # z cores
